@@ -36,10 +36,26 @@ def main():
     except common.HarnessBroken as e:
         print(f'HARNESS-BROKEN {pid}: {e}')
         return 2
-    except Exception:  # noqa
-        traceback.print_exc()
-        print(f'HARNESS-BROKEN {pid}: unexpected exception')
-        return 2
+    except Exception as e:  # noqa
+        info = (e.kind, e.where, e.tb) if isinstance(e, common.CodeRaised) else None
+        if info is None:
+            c = common.classify_exception(e)
+            if c is not None:
+                info = (c[0], c[1], traceback.format_exc())
+        if info is None or args.replay:
+            traceback.print_exc()
+            print(f'HARNESS-BROKEN {pid}: unexpected exception')
+            return 2
+        # the code under test raised where the exploration expected it to work:
+        # the run stops here and reports that as a violation
+        ctx = common.Ctx(pid, tier, seed, mod.LEVEL)
+        ctx.violation(f'{pid}/code-under-test-raises/{info[0]}/{info[1]}',
+                      f'{info[0]} left {info[1]} during the exploration; traceback tail: ' + info[2][-600:],
+                      {'traceback': info[2][-1500:]})
+        ctx.cap('exploration aborted by an exception out of the code under test')
+        return common.finish(ctx, {'evaluations': 0, 'distinct_nontrivial': 0, 'states': 0, 'transitions': 0,
+                                   'traces_validated_against_impl': 0,
+                                   'rule': 'aborted: see the violation'}, exhaustive=False)
     finally:
         common.cleanup_scratch()
 
